@@ -16,20 +16,20 @@ import (
 )
 
 type Env struct {
-	c      *Ctx
-	pkg    *types.Package
-	vars   map[string]Val
-	st     *State
-	old    *State
-	fr     *Frame // resolve free identifiers as current locals of this frame
-	rng    *iterKey
-	oldTop T // allocation frontier of the old state (for fresh())
-	at     string
-	inAxiom bool // evaluating an `axiom` clause: quantifiers range over all mathematical values
-	loopPre *State // state at loop entry (before havoc), for loopold()/loopfresh()
-	iterHead *State // state at the head of the current loop iteration (call-site assertions)
-	guard    *[]T   // when set: collects "dereferenced object is not nil" conditions (designators)
-	params  map[string]Val // entry values of the formals (visible when no local shadows them)
+	c        *Ctx
+	pkg      *types.Package
+	vars     map[string]Val
+	st       *State
+	old      *State
+	fr       *Frame // resolve free identifiers as current locals of this frame
+	rng      *iterKey
+	oldTop   T // allocation frontier of the old state (for fresh())
+	at       string
+	inAxiom  bool           // evaluating an `axiom` clause: quantifiers range over all mathematical values
+	loopPre  *State         // state at loop entry (before havoc), for loopold()/loopfresh()
+	iterHead *State         // state at the head of the current loop iteration (call-site assertions)
+	guard    *[]T           // when set: collects "dereferenced object is not nil" conditions (designators)
+	params   map[string]Val // entry values of the formals (visible when no local shadows them)
 }
 
 func (e *Env) with(st *State) *Env {
@@ -57,12 +57,12 @@ func (e *Env) fail(format string, a ...interface{}) {
 }
 
 var (
-	tInt   = types.Typ[types.Int]
-	tBool  = types.Typ[types.Bool]
-	tStr   = types.Typ[types.String]
-	tUInt  = types.Typ[types.UntypedInt]
-	tUNil  = types.Typ[types.UntypedNil]
-	tByte  = types.Typ[types.Uint8]
+	tInt  = types.Typ[types.Int]
+	tBool = types.Typ[types.Bool]
+	tStr  = types.Typ[types.String]
+	tUInt = types.Typ[types.UntypedInt]
+	tUNil = types.Typ[types.UntypedNil]
+	tByte = types.Typ[types.Uint8]
 )
 
 func boolVal(t T) Val { return Val{Typ: tBool, L: []T{t}} }
@@ -926,21 +926,21 @@ func (e *Env) builtin(name string, x *ast.CallExpr) (Val, bool) {
 // ---- modifies designators ----
 
 type ModLoc struct {
-	Key    string
-	Sort   string // full sort of the heap key
-	Ref    T
-	Idx    T // inner index for two-level keys ("" = whole inner array)
-	HasIdx bool
-	Glob   bool
-	Leaf   Leaf
+	Key     string
+	Sort    string // full sort of the heap key
+	Ref     T
+	Idx     T // inner index for two-level keys ("" = whole inner array)
+	HasIdx  bool
+	Glob    bool
+	Leaf    Leaf
 	HasLeaf bool
 	// reference set: every element of a slice of references (x[*][*])
 	SetE, SetOff, SetLen T
-	HasRange   bool // elements RLo <= index < RHi of the row Ref (absolute indices)
-	RLo, RHi   T
-	Everything bool // `modifies everything`: no frame at all
-	Guard      T    // the location exists only if this holds ("" = always)
-	Except     []string // with Everything: heap key prefixes that are NOT modified
+	HasRange             bool // elements RLo <= index < RHi of the row Ref (absolute indices)
+	RLo, RHi             T
+	Everything           bool     // `modifies everything`: no frame at all
+	Guard                T        // the location exists only if this holds ("" = always)
+	Except               []string // with Everything: heap key prefixes that are NOT modified
 }
 
 // designator evaluates a frame designator. A location reached through a nil
